@@ -216,7 +216,21 @@ def _hyp_worker(args):
         strat = mod.strategy(tier)
         hold = {"last": None}
 
+        shrink_budget = float(os.environ.get("VERIF_SHRINK_S", "45" if tier == "quick" else "180"))
+        try:  # Hypothesis's own cap on shrinking time (default 300 s); affects only the size of the reported case
+            import hypothesis.internal.conjecture.engine as _eng
+
+            _eng.MAX_SHRINKING_SECONDS = shrink_budget
+        except Exception:
+            pass
+
         def body(case):
+            if hold.get("deadline") and time.time() > hold["deadline"]:
+                # shrink budget used up: freeze on the best failing case found so far
+                # (affects only how small the reported case is, never the verdict)
+                if case_hash(case) == hold["last_hash"]:
+                    raise Violation(hold["last"]["message"])
+                return
             try:
                 labels = mod.run_case(case)
             except Violation as v:
@@ -229,6 +243,9 @@ def _hyp_worker(args):
                     st.classes["excluded_known"] += 1
                     return
                 hold["last"] = {"kind": "case", "case": case, "message": v.msg}
+                hold["last_hash"] = case_hash(case)
+                if not hold.get("deadline"):
+                    hold["deadline"] = time.time() + shrink_budget
                 raise
             st.record(case, labels)
 
